@@ -1,12 +1,21 @@
 //! xotharness — runs the real xot on generated cases and prints a transcript
 //! (`T<TAB>request<TAB>response`), statistics (`S<TAB>key<TAB>count`) and oracle failures
 //! (`F<TAB>property<TAB>json`).
+mod build_bytes;
+mod build_faults;
+mod build_gen;
+mod build_obs;
+mod build_oracle;
+mod build_render;
 mod common;
 mod strings;
 mod suite_cmp;
 mod suite_axes;
+mod suite_build;
 mod suite_entity;
 mod suite_ffixed;
+mod suite_fmap;
+mod suite_fclone;
 mod suite_forest;
 mod suite_fspec;
 mod suite_rt;
@@ -51,6 +60,9 @@ fn main() {
         "fws" => suite_fws::run(seed, count, tier, &mut sink),
         "scope" => suite_scope::run(seed, count, tier, &mut sink),
         "ffixed" => suite_ffixed::run(seed, count, tier, &mut sink),
+        "fmap" => suite_fmap::run(seed, count, tier, &mut sink),
+        "build" => suite_build::run(seed, count, tier, &mut sink),
+        "fclone" => suite_fclone::run(seed, count, tier, &mut sink),
         _ => {
             eprintln!("unknown suite {}", suite);
             std::process::exit(2);
